@@ -339,11 +339,10 @@ AcqRetry(e) ==
   /\ IF att[e] < 3
        THEN /\ att' = [att EXCEPT ![e] = @ + 1]
             /\ apc' = apc
-            \* the next attempt starts from an empty deployment map
-            /\ IF Code_RetryForgetsLaunched
-                 THEN cur' = [cur EXCEPT ![e] = {}] /\ UNCHANGED <<inRoster>>
-                 ELSE /\ cur' = [cur EXCEPT ![e] = {}]
-                      /\ inRoster' = [t \in TaskIds |-> inRoster[t] \/ t \in cur[e]]
+            \* the next attempt starts from an empty deployment map; what this one launched is forgotten (as is), or was
+            \* put in the roster, unlocked, before (RosterAppend)
+            /\ Code_RetryForgetsLaunched \/ \A t \in cur[e] : inRoster[t]
+            /\ cur' = [cur EXCEPT ![e] = {}] /\ UNCHANGED <<inRoster>>
        ELSE /\ apc' = [apc EXCEPT ![e] = "failing"] /\ UNCHANGED <<att, cur, inRoster>>
   /\ UNCHANGED <<cvars, dvars, xvars, kpc, evars, claimed, roleTask, tdvars, tenv, trole, owner, running, standby, alive,
                  triggered, killSent, kq, ksent, ksel, kpre, kact, kst, hvars, ncalls>>
@@ -366,7 +365,9 @@ FailUnlock(e, t) ==
 
 \* [Hook task.roster.appended]
 RosterAppend(e, t) ==
-  /\ apc[e] \in {"locking", "failing"} /\ t \in cur[e] /\ ~inRoster[t]
+  /\ \/ apc[e] \in {"locking", "failing"}
+     \/ apc[e] = "acq" /\ ~Code_RetryForgetsLaunched /\ att[e] < 3 /\ ~RoundComplete(e) /\ RolesLaunchedNow(e) = Launchable(e)
+  /\ t \in cur[e] /\ ~inRoster[t]
   /\ apc[e] = "locking" => \A u \in cur[e] : owner[u] = e
   /\ inRoster' = [inRoster EXCEPT ![t] = TRUE]
   /\ UNCHANGED <<cvars, dvars, xvars, kpc, evars, avars, tdvars, tenv, trole, owner, running, standby, alive, triggered, killSent, kq, ksent, ksel, kpre, kact, kst,
